@@ -12,69 +12,7 @@ verus! {
 //@include prelude/std_specs.rs
 //@include prelude/received_pdu.rs
 
-// ---- wire traits with the Buffer associated type (ethercrab-wire/src/lib.rs); contract assumed, C19 checks impls ----
-pub trait BufLike {
-    spec fn bytes(&self) -> Seq<u8>;
-    fn as_mut(&mut self) -> (r: &mut [u8])
-        ensures r@ == old(self).bytes(), final(self).bytes() == final(r)@;
-    fn as_ref(&self) -> (r: &[u8])
-        ensures r@ == self.bytes();
-}
-pub trait EtherCrabWireSized {
-    const PACKED_LEN: usize;
-    type Buffer: BufLike;
-    fn buffer() -> (r: Self::Buffer)
-        ensures r.bytes().len() == Self::PACKED_LEN;
-}
-pub trait EtherCrabWireRead: Sized {
-    spec fn unpack_spec(b: Seq<u8>) -> Result<Self, WireError>;
-    fn unpack_from_slice(buf: &[u8]) -> (r: Result<Self, WireError>)
-        ensures r == Self::unpack_spec(buf@);
-}
-pub trait EtherCrabWireReadSized: EtherCrabWireRead + EtherCrabWireSized {}
-pub trait EtherCrabWireWrite {
-    spec fn packed(&self) -> Seq<u8>;
-    fn packed_len(&self) -> (r: usize) ensures r == self.packed().len();
-    fn pack_to_slice<'buf>(&self, buf: &'buf mut [u8]) -> (r: Result<&'buf [u8], WireError>)
-        ensures
-            final(buf)@.len() == old(buf)@.len(),
-            (r is Ok) == (self.packed().len() <= old(buf)@.len()),
-            r is Ok ==> final(buf)@.subrange(0, self.packed().len() as int) == self.packed()
-                && final(buf)@.subrange(self.packed().len() as int, old(buf)@.len() as int) == old(buf)@.subrange(self.packed().len() as int, old(buf)@.len() as int),
-            r is Err ==> r->Err_0 == WireError::WriteBufferTooShort && final(buf)@ == old(buf)@;
-}
-impl From<WireError> for Error {
-    fn from(value: WireError) -> (r: Self) ensures r == Error::Wire(value) { Error::Wire(value) }
-}
-impl vstd::std_specs::convert::FromSpecImpl<WireError> for Error {
-    open spec fn obeys_from_spec() -> bool { true }
-    open spec fn from_spec(v: WireError) -> Error { Error::Wire(v) }
-}
-
-pub struct Buf4 { pub b: [u8; 4] }
-impl BufLike for Buf4 {
-    open spec fn bytes(&self) -> Seq<u8> { self.b@ }
-    #[verifier::external_body]
-    fn as_mut(&mut self) -> (r: &mut [u8]) { &mut self.b }
-    #[verifier::external_body]
-    fn as_ref(&self) -> (r: &[u8]) { &self.b }
-}
-pub open spec fn le32(b: Seq<u8>) -> u32 {
-    (b[0] as u32 + 256 * (b[1] as u32) + 65536 * (b[2] as u32) + 16777216 * (b[3] as u32)) as u32
-}
-impl EtherCrabWireSized for u32 {
-    const PACKED_LEN: usize = 4;
-    type Buffer = Buf4;
-    #[verifier::external_body]
-    fn buffer() -> (r: Buf4) { Buf4 { b: [0; 4] } }
-}
-impl EtherCrabWireRead for u32 {
-    open spec fn unpack_spec(b: Seq<u8>) -> Result<u32, WireError> {
-        if b.len() < 4 { Err(WireError::ReadBufferTooShort) } else { Ok(le32(b)) }
-    }
-    #[verifier::external_body]
-    fn unpack_from_slice(buf: &[u8]) -> (r: Result<u32, WireError>) { unimplemented!() }
-}
+//@include prelude/wire_traits_buf.rs
 
 // ---- CoE / mailbox header types, extracted ----
 /*@type file=src/mailbox/mod.rs name=Priority derive="Clone, Copy, PartialEq, Eq, Debug" @*/
